@@ -1,6 +1,6 @@
 /-
   XotModel.Lemmas.SpanDescMono — `Desc` and the frame invariants survive a change of the span map
-  outside the keys they read (`Prot`), and growth of the interning tables (`EnvApp`); which paths
+  outside the keys they read (`Prot`), and growth of the interning tables (`SdEnvApp`); which paths
   are not `Frozen`; closing a frame.
 -/
 import XotModel.Lemmas.SpanDescDefs
@@ -21,7 +21,7 @@ theorem getElem?_append_of_some {α : Type} {l x : List α} {i : Nat} {v : α} (
     · rw [List.getElem?_eq_none h'] at h; cases h
   rw [List.getElem?_append_left hlt]; exact h
 
-theorem NameFacts.mono {env env' : Env} (he : EnvApp env env') {stack : NsStack} {attr : Bool} {id : Nat}
+theorem NameFacts.mono {env env' : Env} (he : SdEnvApp env env') {stack : NsStack} {attr : Bool} {id : Nat}
     {p l : Str} (h : NameFacts env stack attr id p l) : NameFacts env' stack attr id p l := by
   obtain ⟨hm, ns, hn, hl⟩ := h
   obtain ⟨x, hx⟩ := he.pfx
@@ -32,13 +32,13 @@ theorem NameFacts.mono {env env' : Env} (he : EnvApp env env') {stack : NsStack}
 
 /-! ### Facts read `g` only at keys of their own path -/
 
-theorem AttrFacts.mono {ts : List Token} {g g' : SpanKey → Option Span} {env env' : Env} (he : EnvApp env env')
+theorem AttrFacts.mono {ts : List Token} {g g' : SpanKey → Option Span} {env env' : Env} (he : SdEnvApp env env')
     {stack : NsStack} {path : Path} {n : Nat} {v : Str} (hg : ∀ kind, g' ⟨path, kind⟩ = g ⟨path, kind⟩)
     (h : AttrFacts ts g env stack path n v) : AttrFacts ts g' env' stack path n v := by
   obtain ⟨p, l, val, sp, hm, h1, h2, h3, h4⟩ := h
   exact ⟨p, l, val, sp, hm, by rw [hg]; exact h1, by rw [hg]; exact h2, h3, h4.mono he⟩
 
-theorem StartFacts.mono {ts : List Token} {g g' : SpanKey → Option Span} {env env' : Env} (he : EnvApp env env')
+theorem StartFacts.mono {ts : List Token} {g g' : SpanKey → Option Span} {env env' : Env} (he : SdEnvApp env env')
     {stack : NsStack} {path : Path} {id : Nat} {ks : List Tree}
     (hg : ∀ kind, kind ≠ .elementEnd → g' ⟨path, kind⟩ = g ⟨path, kind⟩)
     (h : StartFacts ts g env stack path id ks) : StartFacts ts g' env' stack path id ks := by
@@ -52,7 +52,7 @@ theorem StartFacts.of_perm {ts : List Token} {g : SpanKey → Option Span} {env 
     (h : StartFacts ts g env stack path id ks) : StartFacts ts g env stack path id ks' :=
   ⟨h.1, fun k hk => h.2 k (hsub k hk)⟩
 
-theorem NodeFacts.mono {ts : List Token} {g g' : SpanKey → Option Span} {env env' : Env} (he : EnvApp env env')
+theorem NodeFacts.mono {ts : List Token} {g g' : SpanKey → Option Span} {env env' : Env} (he : SdEnvApp env env')
     {stack : NsStack} {path : Path} {v : Value} {ks : List Tree} (hg : ∀ kind, g' ⟨path, kind⟩ = g ⟨path, kind⟩)
     (h : NodeFacts ts g env stack path v ks) : NodeFacts ts g' env' stack path v ks := by
   cases v with
@@ -77,7 +77,7 @@ theorem NodeFacts.mono {ts : List Token} {g g' : SpanKey → Option Span} {env e
   | «namespace» p n => trivial
 
 mutual
-theorem desc_mono {ts : List Token} {g g' : SpanKey → Option Span} {env env' : Env} (he : EnvApp env env') :
+theorem desc_mono {ts : List Token} {g g' : SpanKey → Option Span} {env env' : Env} (he : SdEnvApp env env') :
     ∀ (t : Tree) (stack : NsStack) (path : Path), (∀ k, path <+: k.path → g' k = g k) →
       Desc ts g env stack path t → Desc ts g' env' stack path t
   | .node v ks, stack, path, hg, hd => by
@@ -85,7 +85,7 @@ theorem desc_mono {ts : List Token} {g g' : SpanKey → Option Span} {env env' :
     exact ⟨hd.1.mono he (fun kind => hg _ (List.prefix_refl _)),
       descList_mono he ks _ path 0 (fun k j hk => hg k ((List.prefix_append path [j]).trans hk)) hd.2⟩
 /-- The children read only keys strictly below `path`. -/
-theorem descList_mono {ts : List Token} {g g' : SpanKey → Option Span} {env env' : Env} (he : EnvApp env env') :
+theorem descList_mono {ts : List Token} {g g' : SpanKey → Option Span} {env env' : Env} (he : SdEnvApp env env') :
     ∀ (ks : List Tree) (stack : NsStack) (path : Path) (i : Nat),
       (∀ k j, (path ++ [j]) <+: k.path → g' k = g k) →
       Desc.descList ts g env stack path i ks → Desc.descList ts g' env' stack path i ks
@@ -103,7 +103,7 @@ theorem snoc_not_prefix_self (a : Path) (i : Nat) : ¬ (a ++ [i]) <+: a := by
 
 /-! ### Frames -/
 
-theorem descR_mono {ts : List Token} {g g' : SpanKey → Option Span} {env env' : Env} (he : EnvApp env env')
+theorem descR_mono {ts : List Token} {g g' : SpanKey → Option Span} {env env' : Env} (he : SdEnvApp env env')
     {stack : NsStack} {path : Path} : ∀ (l : List Tree),
       (∀ k, (∃ i, i < l.length ∧ (path ++ [i]) <+: k.path) → g' k = g k) →
       DescR ts g env stack path l → DescR ts g' env' stack path l
@@ -112,7 +112,7 @@ theorem descR_mono {ts : List Token} {g g' : SpanKey → Option Span} {env env' 
     ⟨desc_mono he k stack _ (fun x hx => hg x ⟨rest.length, by simp, hx⟩) a,
       descR_mono he rest (fun x ⟨i, hi, hx⟩ => hg x ⟨i, by simp only [List.length_cons]; omega, hx⟩) b⟩
 
-theorem frameDesc_mono {ts : List Token} {g g' : SpanKey → Option Span} {env env' : Env} (he : EnvApp env env')
+theorem frameDesc_mono {ts : List Token} {g g' : SpanKey → Option Span} {env env' : Env} (he : SdEnvApp env env')
     {stack : NsStack} {path : Path} {f : Frame}
     (hg1 : ∀ k, (∃ i, i < f.rkids.length ∧ (path ++ [i]) <+: k.path) → g' k = g k)
     (hg2 : ∀ kind, kind ≠ .elementEnd → g' ⟨path, kind⟩ = g ⟨path, kind⟩)
@@ -128,7 +128,7 @@ theorem prot_cons {f : Frame} {rest : List Frame} {k : SpanKey} (h : Prot rest k
   · exact .inl (.inr h)
   · exact .inr (.inr h)
 
-theorem stackDesc_mono {ts : List Token} {g g' : SpanKey → Option Span} {env env' : Env} (he : EnvApp env env') :
+theorem stackDesc_mono {ts : List Token} {g g' : SpanKey → Option Span} {env env' : Env} (he : SdEnvApp env env') :
     ∀ (l : List Frame) (stack : NsStack), (∀ k, Prot l k → g' k = g k) →
       StackDesc ts g env stack l → StackDesc ts g' env' stack l
   | [], _, _, _ => trivial
@@ -138,7 +138,7 @@ theorem stackDesc_mono {ts : List Token} {g g' : SpanKey → Option Span} {env e
       stackDesc_mono he rest _ (fun k hk => hg k (prot_cons hk)) b⟩
 
 /-- `PfxDesc` reads the span map only at the `ElementStart` keys of the open frames. -/
-theorem pfxDesc_mono {ts : List Token} {g g' : SpanKey → Option Span} {env env' : Env} (he : EnvApp env env') :
+theorem pfxDesc_mono {ts : List Token} {g g' : SpanKey → Option Span} {env env' : Env} (he : SdEnvApp env env') :
     ∀ (l : List Frame) (ops : List Str), (∀ k, OwnKey l k → g' k = g k) →
       PfxDesc ts g env l ops → PfxDesc ts g' env' l ops
   | [], _, _, _ => trivial
@@ -263,15 +263,15 @@ theorem descList_of_R {ts : List Token} {g : SpanKey → Option Span} {env : Env
     rw [List.reverse_cons]
     exact descList_snoc stack path k _ 0 (ih h.2) (by simpa using h.1)
 
-theorem declsOf_append (a b : List Tree) : declsOf (a ++ b) = declsOf a ++ declsOf b := by
-  simp [declsOf, List.filterMap_append]
+theorem sdDeclsOf_append (a b : List Tree) : sdDeclsOf (a ++ b) = sdDeclsOf a ++ sdDeclsOf b := by
+  simp [sdDeclsOf, List.filterMap_append]
 
 /-- A child that is not a namespace node does not change the declarations. -/
 theorem declsOf_reverse_cons {k : Tree} (l : List Tree) (h : ∀ p n, k.value ≠ .namespace p n) :
-    declsOf (k :: l).reverse = declsOf l.reverse := by
-  rw [List.reverse_cons, declsOf_append]
-  suffices declsOf [k] = [] by rw [this, List.append_nil]
+    sdDeclsOf (k :: l).reverse = sdDeclsOf l.reverse := by
+  rw [List.reverse_cons, sdDeclsOf_append]
+  suffices sdDeclsOf [k] = [] by rw [this, List.append_nil]
   cases k with
-  | node v ks => cases v <;> simp_all [declsOf, Tree.value]
+  | node v ks => cases v <;> simp_all [sdDeclsOf, Tree.value]
 
 end XotModel
